@@ -6,6 +6,7 @@ package e1
 import (
 	"bytes"
 	"fmt"
+	"time"
 
 	"verif/ref"
 )
@@ -103,7 +104,7 @@ func Hist(name string) *ref.History {
 		for i := range long {
 			long[i] = 'a' + byte(i%26)
 		}
-		n1, n2, n3 := string(long), "bin log \xe4\xba\x8c.000002", "a"
+		n1, n2, n3 := string(long), "bin log \xe4\xba\x8c.000002", "./arch/a"
 		h = &ref.History{Cfg: cfg, Files: []*ref.File{
 			{Name: n1, Base: 1<<31 - 150, Events: cat(
 				txInsert(1600000000, t, 21, 1, "alice"),
@@ -136,6 +137,20 @@ func Hist(name string) *ref.History {
 			[]*ref.AEvent{ref.Q(1600000017, "db1", "BEGIN"), ref.TM(1600000017, t),
 				ref.R(1600000017, ref.RowDelete, t, ref.RowChange{Before: row1(t, 9, "auto", 1)}),
 				ref.Q(1600000018, "db1", "ROLLBACK")},
+			txDelete(1600000020, t, 23, 1, "alice"))}}}
+	case "H5":
+		// an UPDATE whose BEFORE image holds a cell the value decoder rejects
+		// (ENUM with a 3-byte pack length: the length rule accepts it) while the
+		// after image decodes: the stream must end with an error (C06)
+		tb := &ref.Table{ID: 130, DB: "db1", Name: "tbad", Flags: 1, Cols: []ref.Column{
+			ref.ColInt(ref.TLong, "id", false), {Type: ref.TString, Meta: []byte{ref.TEnum, 3}, Name: "e", Nullable: true}}}
+		bad := ref.R(1600000012, ref.RowUpdate, tb, ref.RowChange{
+			Before: ref.Image{ref.VInt(ref.TLong, 1, false), ref.Cell{Raw: []byte{1, 0, 0}, Text: []byte("1")}},
+			After:  ref.Image{ref.VInt(ref.TLong, 1, false), ref.Cell{Null: true}}})
+		bad.Bad = true
+		h = &ref.History{Cfg: cfg, Files: []*ref.File{{Name: f1, Events: cat(
+			txInsert(1600000000, t, 21, 1, "alice"),
+			[]*ref.AEvent{ref.Q(1600000010, "db1", "BEGIN"), ref.TM(1600000010, tb), bad, ref.X(1600000013, 22)},
 			txDelete(1600000020, t, 23, 1, "alice"))}}}
 	case "H9":
 		// commit points immediately followed by units outside BEGIN...COMMIT: a
@@ -171,6 +186,13 @@ func T8(id uint64, pad int) *ref.Table {
 		ref.ColPlain(ref.TTimestamp, "ts0"),
 		ref.ColFsp(ref.TTimestamp2, "ts2", 0),
 		ref.ColVarchar("pad", 65000),
+		// types whose text is built in a buffer: a recycled / package-level
+		// buffer would make neighbouring or later values share memory
+		ref.ColDecimal("d1", 20, 2), ref.ColDecimal("d2", 20, 2),
+		ref.ColFsp(ref.TDateTime2, "dt1", 6), ref.ColFsp(ref.TDateTime2, "dt2", 0),
+		ref.ColFsp(ref.TTime2, "t1", 3), ref.ColFsp(ref.TTimestamp2, "ts3", 3),
+		ref.ColJSON("j1", 4), ref.ColJSON("j2", 4),
+		ref.ColInt(ref.TLongLong, "n1", false), ref.ColDouble("f1"),
 	}}
 }
 
@@ -187,6 +209,12 @@ func row8(tag byte, pad int) ref.Image {
 		ref.Cell{Raw: []byte{0, 0, 0, 0}, Text: zero},
 		ref.Cell{Raw: []byte{0, 0, 0, 0}, Text: zero},
 		ref.VVarchar(65000, b(pad)),
+		ref.VDecimal(20, 2, fmt.Sprintf("%d23456.78", int(tag%9)+1)), ref.VDecimal(20, 2, fmt.Sprintf("-%d.05", int(tag%7)+1)),
+		ref.VDateTimeFsp(6, 2000+int(tag%50), 6, 21, 15, 45, 17, 123456), ref.VDateTimeFsp(0, 1000+int(tag), 1, 1, 0, 0, 0, 0),
+		ref.VTime2(3, tag%2 == 0, int(tag), 59, 58, 999000), ref.VTimestamp2(3, 1490106309+uint32(tag), 120000, time.Local),
+		ref.Cell{Raw: ref.JSONAppendCell(nil, ref.JObj([]string{"a"}, []*ref.JDoc{ref.JS("b")}), ref.JSONNatural), Text: []byte("JSON_OBJECT('a','b')")},
+		ref.Cell{Raw: ref.JSONAppendCell(nil, ref.JArr(ref.JI(1), ref.JI(2)), ref.JSONNatural), Text: []byte("JSON_ARRAY(1,2)")},
+		ref.VInt(ref.TLongLong, -int64(tag)*1000003, false), ref.VDouble(float64(tag) + 0.5),
 	}
 }
 
